@@ -57,8 +57,11 @@ def nest_tie(ir):
 
 def gen(ctx, rng):
     kind = rng.choice(KINDS)
-    c1 = pc.gen_panel_case(rng, models=('Plate',), max_mn=3, y12=False)
-    c2 = pc.gen_panel_case(rng, models=('Plate',), max_mn=3, y12=False)
+    # series orders up to 5: the fourth Bardell function (rotation at the far end) is the only one the `..2r.` edge flags act on - with
+    # m, n <= 3 a wrong rotation flag in a kernel could never show (seeded change C12-6)
+    mx = rng.choice([3, 3, 4, 5])
+    c1 = pc.gen_panel_case(rng, models=('Plate',), max_mn=mx, y12=False)
+    c2 = pc.gen_panel_case(rng, models=('Plate',), max_mn=mx, y12=False)
     c2['a'] = c1['a'] if kind in ('SSycte', 'BFycte', 'SB') else c2['a']
     c2['b'] = c1['b'] if kind in ('SSxcte', 'BFxcte', 'SB') else c2['b']
     case = dict(kind=kind, c1=c1, c2=c2, order=rng.choice(['p1 first', 'p2 first']))
@@ -294,6 +297,105 @@ def kt_kr_correspondence(ctx, rng):
     return False
 
 
+def tstiff_base_flange(ctx, rng):
+    """the base-to-flange connection INSIDE a T stiffener (TStiff2D.calc_k0): with the attachment lines the object is given
+    (eta_conn_base, eta_conn_flange in [-1, 1] - defaults 0 and -1) the three connection blocks it adds are the Hessian of the mismatch
+    energy between the base on its line y = (eta_b + 1)/2 * bb and the flange on ITS line y = (eta_f + 1)/2 * bf"""
+    from tools.props import C13
+    import compmech.stiffener.tstiff2d as tmod
+    from compmech.panel import connections
+    for _ in range(50):
+        bc = C13.gen_bay(rng)
+        ts = [s_ for s_ in bc['stiffs'] if s_['type'] == 't']
+        if ts and not bc['curved']:
+            break
+    else:
+        return None, None
+    bc['stiffs'] = ts[:1]
+    bc['stiffs'][0]['fflags'] = None
+    try:
+        bay, objs = C13.build_bay(bc)
+    except Exception:
+        return None, None
+    s_ = objs[0]
+    s_.eta_conn_base = rng.choice([0., -1., 1., round(rng.uniform(-1, 1), 3)])
+    s_.eta_conn_flange = rng.choice([-1., 1., 1., 0., round(rng.uniform(-1, 1), 3)])
+    base, flange = s_.base, s_.flange
+    skin = C13.bay_ranges(bc, bay)[0][1]
+    nb_, nf_ = pc.quiet(base.get_size), pc.quiet(flange.get_size)
+    size = skin + nb_ + nf_
+    names = ('fkCBFycte11', 'fkCBFycte12', 'fkCBFycte22')
+    orig = {n: getattr(tmod, n) for n in names}
+    rec = []
+    try:
+        for n in names:
+            setattr(tmod, n, (lambda n_: (lambda *a, **k: (rec.append(orig[n_](*a, **k)) or rec[-1])))(n))
+        pc.quiet(s_.calc_k0, size=size, row0=skin, col0=skin, silent=True, finalize=False)
+    except Exception as e:
+        return dict(bay=bc, eta_conn_base=s_.eta_conn_base, eta_conn_flange=s_.eta_conn_flange), \
+            'TStiff2D.calc_k0 raised %s: %s' % (type(e).__name__, str(e)[:160])
+    finally:
+        for n in names:
+            setattr(tmod, n, orig[n])
+    if len(rec) != 3:
+        return dict(bay=bc), 'TStiff2D.calc_k0 made %d base-flange connection kernel calls instead of 3' % len(rec)
+    from compmech.sparse import finalize_symmetric_matrix
+    got = finalize_symmetric_matrix(rec[0] + rec[1] + rec[2]).toarray()
+    kt, kr = pc.quiet(connections.calc_kt_kr, base, flange, 'ycte')
+    keep = [(q, getattr(q, 'row_start', None)) for q in (base, flange)]
+    base.row_start, flange.row_start = skin, skin + nb_
+    try:
+        want = oracle(dict(kind='BFycte', ycte1=(s_.eta_conn_base + 1) / 2. * base.b, ycte2=(s_.eta_conn_flange + 1) / 2. * flange.b),
+                      base, flange, kt, kr if kr is not None else 0., size)
+    finally:
+        for q, v in keep:
+            q.row_start = v
+    d = pc.rel_diff(got, want)
+    desc = dict(bay=bc, eta_conn_base=s_.eta_conn_base, eta_conn_flange=s_.eta_conn_flange, bb=base.b, bf=flange.b)
+    if d > 1e-8:
+        i, j = np.unravel_index(np.abs(got - want).argmax(), got.shape)
+        return desc, ('T stiffener with eta_conn_base = %g, eta_conn_flange = %g (bb = %.4g, bf = %.4g): the base-flange connection blocks differ '
+                      'from the Hessian of the mismatch energy on the lines y_b = %.4g, y_f = %.4g: rel %.3e at [%d,%d]'
+                      % (s_.eta_conn_base, s_.eta_conn_flange, base.b, flange.b, (s_.eta_conn_base + 1) / 2. * base.b,
+                         (s_.eta_conn_flange + 1) / 2. * flange.b, d, i, j))
+    return None, None
+
+
+def assembly_history(ctx, rng, ir):
+    """the connection matrix of an assembly does not depend on which evaluation built it first: after calc_k0(finalize=False)
+    (the un-symmetrised sum some callers ask for), get_k0_conn() / calc_k0() deliver what they deliver on a fresh assembly"""
+    case = gen(ctx, rng)
+    # (an explicit get_k0_conn(finalize=False) as FIRST call is the listed finding C20-asm-k0_conn-cache-ignores-conn - the cache ignores
+    #  the arguments of the call that filled it - and is exercised there, not here)
+    first = rng.choice(['calc_k0(finalize=False)', 'calc_k0(finalize=False)', 'calc_kT'])
+    try:
+        asm, p1, p2 = build(case)
+        # reference: the plain calc_k0() FIRST, so that both assemblies build their laminates the same way (which call builds the
+        # laminates decides about the offset in kt / kr: listed finding C20-kt_kr-builds-lam-without-offset, not this stream's business)
+        k0_fresh = pc.quiet(asm.calc_k0, silent=True).toarray()
+        fresh = pc.quiet(asm.get_k0_conn).toarray()
+        asm2, q1, q2 = build(case)
+        if first == 'calc_k0(finalize=False)':
+            pc.quiet(asm2.calc_k0, silent=True, finalize=False)
+        elif first == 'get_k0_conn(finalize=False)':
+            pc.quiet(asm2.get_k0_conn, finalize=False)
+        else:
+            pc.quiet(asm2.calc_kT, c=np.zeros(asm2.get_size()), silent=True)
+        later = pc.quiet(asm2.get_k0_conn).toarray()
+        k0_later = pc.quiet(asm2.calc_k0, silent=True).toarray()
+    except Exception as e:
+        return None, None
+    desc = dict(case=case, first=first)
+    d = pc.rel_diff(later, fresh)
+    if d > 1e-12:
+        return desc, ('get_k0_conn() after %s on the same assembly differs from get_k0_conn() of a freshly built assembly: rel %.3e '
+                      '(asymmetry of the later matrix: %.3e)' % (first, d, pc.rel_diff(later, later.T)))
+    d = pc.rel_diff(k0_later, k0_fresh)
+    if d > 1e-12:
+        return desc, 'calc_k0() after %s on the same assembly differs from calc_k0() of a freshly built assembly: rel %.3e' % (first, d)
+    return None, None
+
+
 def correspondence(ctx):
     ir = translate(ctx)
     rng = ctx.rng
@@ -322,6 +424,20 @@ def correspondence(ctx):
                 return
         if v_bad:
             ctx.violation(v_bad, dict(case=case, tie='V kC'), found_input=False)
+            return
+    for t in range(ctx.scale(8, 60)):
+        c, bad = tstiff_base_flange(ctx, rng)
+        ctx.evaluations += 1
+        if c is None and bad is None:
+            dist['tstiff_conn_ok'] = dist.get('tstiff_conn_ok', 0) + 1
+        if bad:
+            ctx.violation('C12 fails on the implementation: ' + bad, dict(case=c, derived='tstiff base-flange'))
+            return
+    for t in range(ctx.scale(6, 40)):
+        c, bad = assembly_history(ctx, rng, ir)
+        ctx.evaluations += 1
+        if bad:
+            ctx.violation('C12 fails on the implementation: ' + bad, dict(case=c, derived='assembly history'))
             return
     for t in range(ctx.scale(3, 20)):
         c, bad = kt_kr_checks(ctx, rng)
